@@ -101,13 +101,51 @@ Section RuleProofs.
     apply andb_prop in H. destruct H as [_ H]. specialize (IH lr H). cbn [length]. lia.
   Qed.
 
+  Lemma insert_at_length : forall l k x, length (insert_at l k x) = S (length l).
+  Proof. induction l as [|y l IH]; intros [|k] x; cbn [insert_at length]; try reflexivity. rewrite IH. reflexivity. Qed.
+  Lemma remove_at_length : forall l k, (k < length l)%nat -> S (length (remove_at l k)) = length l.
+  Proof. induction l as [|y l IH]; intros [|k] H; cbn [length] in H; try lia; cbn [remove_at length]; [reflexivity|]. rewrite (IH k ltac:(lia)). reflexivity. Qed.
+  Lemma upd_length0 : forall l k f, length (upd l k f) = length l.
+  Proof. induction l as [|x l IH]; intros [|k] f; cbn [upd length]; try reflexivity; rewrite IH; reflexivity. Qed.
+
+  Lemma do_inserts_measure : forall acts l pos hw hp l1 pos1 hw1 hp1, do_inserts adv acts l pos hw hp = (l1, pos1, hw1, hp1) ->
+    (length l1 - pos1 = length l - pos)%nat /\ (pos <= length l -> pos1 <= length l1)%nat /\ (length l <= length l1)%nat /\ (length l1 - length l = pos1 - pos)%nat /\ (pos <= pos1)%nat.
+  Proof.
+    induction acts as [|a rest IH]; intros l pos hw hp l1 pos1 hw1 hp1 H; cbn [RuleModel.do_inserts] in H.
+    - injection H as <- <- <- <-. lia.
+    - destruct a; try exact (IH _ _ _ _ _ _ _ _ H).
+      specialize (IH _ _ _ _ _ _ _ _ H). rewrite insert_at_length in IH. lia.
+  Qed.
+
+  Lemma do_item_measure r orig dn j acts l pos hw hp l1 pos1 hw1 hp1 dn1 :
+    do_item adv r orig dn j acts l pos hw hp = (l1, pos1, hw1, hp1, dn1) -> (pos < length l)%nat ->
+    (S (length l1 - pos1) = length l - pos)%nat /\ (pos1 <= length l1)%nat.
+  Proof.
+    unfold RuleModel.do_item. destruct (do_inserts adv acts l pos hw hp) as [[[la pa] ha] hpa] eqn:Ei.
+    destruct (do_inserts_measure _ _ _ _ _ _ _ _ _ Ei) as [M1 [M2 [M3 [M4 M5]]]].
+    destruct (has_delete acts); intros H Hp; injection H as <- <- <- <- <-.
+    - match goal with |- context [remove_at ?u pa] => pose proof (remove_at_length u pa) as R end. rewrite upd_length0 in R. specialize (R ltac:(lia)). lia.
+    - rewrite upd_length0. lia.
+  Qed.
+
+  Lemma do_items_measure r orig : forall n dn j acts l pos hw hp l1 pos1 hw1 hp1,
+    do_items adv r orig dn j n acts l pos hw hp = (l1, pos1, hw1, hp1) -> (pos + n <= length l)%nat ->
+    (length l1 - pos1 + n = length l - pos)%nat /\ (pos1 <= length l1)%nat.
+  Proof.
+    induction n as [|n IH]; intros dn j acts l pos hw hp l1 pos1 hw1 hp1 H Hp; cbn [RuleModel.do_items] in H.
+    - injection H as <- <- <- <-. lia.
+    - destruct (do_item adv r orig dn j (match acts with a :: _ => a | [] => [] end) l pos hw hp) as [[[[la pa] ha] hpa] da] eqn:Ed.
+      destruct (do_item_measure _ _ _ _ _ _ _ _ _ _ _ _ _ _ Ed ltac:(lia)) as [D1 D2].
+      specialize (IH _ _ _ _ _ _ _ _ _ _ _ H ltac:(lia)). lia.
+  Qed.
+
   Lemma fire_progress r l i l' i' : rule_matches r l i = true -> fire r l i = (l', i') ->
     (i' <= length l')%nat /\ (length l' - i' < length l - i)%nat.
   Proof.
     unfold rule_matches, RuleModel.fire. intros Hm E. apply andb_prop in Hm. destruct Hm as [Hm _]. apply andb_prop in Hm. destruct Hm as [Hm H3]. apply andb_prop in Hm. destruct Hm as [H1 H2].
     apply Nat.leb_le in H1. apply Nat.ltb_lt in H2. apply matches_from_length in H3. rewrite skipn_length in H3. unfold r_sort in *.
-    injection E as <- <-. set (b := apply_items adv _ _ _ _).
-    repeat (rewrite app_length || rewrite firstn_length || rewrite skipn_length). lia.
+    destruct (do_items adv r _ _ _ _ _ l i None false) as [[[la pa] ha] hpa] eqn:Ed. injection E as <- <-.
+    destruct (do_items_measure _ _ _ _ _ _ _ _ _ _ _ _ _ _ Ed ltac:(lia)) as [D1 D2]. lia.
   Qed.
 
   (* positioning passes keep the length of the stream *)
@@ -121,14 +159,15 @@ Section RuleProofs.
     assert (H1 : length l1 = length l) by (unfold l1; destruct (s_par sc); [rewrite !upd_length|]; reflexivity).
     destruct (Nat.ltb _ 100 && _); [rewrite !upd_length|]; exact H1.
   Qed.
-  Lemma apply_acts_pos_length orig st j : forall acts l, length (apply_acts_pos adv orig st j acts l) = length l.
+  Lemma apply_acts_pos_length r orig st j : forall acts l, length (apply_acts_pos adv r orig st j acts l) = length l.
   Proof.
     induction acts as [|a rest IH]; intros l; cbn [apply_acts_pos]; [reflexivity|]. rewrite IH.
     destruct a; try (rewrite upd_length; reflexivity); try reflexivity.
-    - destruct (if (Z.of_nat j + ref <? 0)%Z then None else nth_error orig (Z.to_nat (Z.of_nat j + ref))); [rewrite upd_length|]; reflexivity.
+    - destruct (read_src r orig _ j ref); [rewrite upd_length|]; reflexivity.
     - destruct (Z.of_nat (st + j) + ref <? 0)%Z; [reflexivity | apply attach_length].
+    - destruct (read_src r orig _ j ref); [destruct (ref =? 0)%Z; [|rewrite upd_length]|]; reflexivity.
   Qed.
-  Lemma apply_items_pos_length orig st : forall n j acts l, length (apply_items_pos adv orig st j n acts l) = length l.
+  Lemma apply_items_pos_length r orig st : forall n j acts l, length (apply_items_pos adv r orig st j n acts l) = length l.
   Proof. induction n as [|n IH]; intros j acts l; cbn [apply_items_pos]; [reflexivity|]. rewrite IH, apply_acts_pos_length. reflexivity. Qed.
 
   Lemma fire_pos_progress r l i l' i' : rule_matches r l i = true -> fire_pos r l i = (l', i') ->
